@@ -150,6 +150,7 @@ func checkC11(w *World, r *Report) {
 
 	checkResolvesThroughLoad(w, r, "R11.5", []string{"IncludeNode"}, "an include is answered from a per-node or per-context shortcut instead of the template the name denotes now")
 	checkChainFlattening(w, r)
+	checkReadsFollowChain(w, r)
 
 	// ---- R11.2 / R11.3 in IncludeNode.Render and its parts (unexported helpers with that one call
 	// site; flags may travel in a local struct of options and be tested by predicate helpers)
@@ -909,4 +910,122 @@ func lookupPresence(c ssa.Value, m, key ssa.Value) bool {
 		return false
 	}
 	return sameValue(unspill(lk.X), unspill(m)) && sameValue(unspill(lk.Index), unspill(key))
+}
+
+// checkReadsFollowChain — R11.8: reading a variable by name sees the enclosing contexts.  An
+// included template runs in a child context whose own map holds only the `with` variables; the
+// includer's variables are reached through .parent.  Every function that looks a name up in a
+// RenderContext's variable map — and does not write the map under that key itself (save/restore
+// bookkeeping is about one level by design) — must, on every path on which the lookup did not
+// find the name, reach a continuation before it returns: a load of the context's .parent, or a
+// call to another function that satisfies this rule.
+func checkReadsFollowChain(w *World, r *Report) {
+	type site struct {
+		fn *ssa.Function
+		lk *ssa.Lookup
+	}
+	var sites []site
+	hasSite := map[*ssa.Function]bool{}
+	for _, fn := range w.pkgFuncs() {
+		// functions (with their closures) that store into the variable map are writers
+		writes := false
+		var scan func(f *ssa.Function)
+		scan = func(f *ssa.Function) {
+			instrsOf(f, func(in ssa.Instruction) {
+				if mu, ok := in.(*ssa.MapUpdate); ok {
+					if _, ok := fieldLoad(mu.Map, "RenderContext", "context"); ok {
+						writes = true
+					}
+				}
+			})
+			for _, an := range f.AnonFuncs {
+				scan(an)
+			}
+		}
+		root := fn
+		for root.Parent() != nil {
+			root = root.Parent()
+		}
+		scan(root)
+		if writes {
+			continue
+		}
+		instrsOf(fn, func(in ssa.Instruction) {
+			lk, ok := in.(*ssa.Lookup)
+			if !ok {
+				return
+			}
+			if _, ok := fieldLoad(lk.X, "RenderContext", "context"); !ok {
+				return
+			}
+			sites = append(sites, site{fn, lk})
+			hasSite[fn] = true
+		})
+	}
+	reader := map[*ssa.Function]bool{}
+	for f := range hasSite {
+		reader[f] = true
+	}
+	failing := map[*ssa.Lookup]string{}
+	for changed := true; changed; {
+		changed = false
+		for _, s := range sites {
+			if !reader[s.fn] {
+				continue
+			}
+			gen := func(in ssa.Instruction) bool {
+				if u, ok := in.(*ssa.UnOp); ok {
+					if _, ok := fieldLoad(u, "RenderContext", "parent"); ok {
+						return true
+					}
+				}
+				if c, ok := in.(ssa.CallInstruction); ok {
+					if g := c.Common().StaticCallee(); g != nil && reader[g] && g != s.fn {
+						return true
+					}
+					if g := c.Common().StaticCallee(); g != nil && g == s.fn {
+						return true // recursion on the chain
+					}
+				}
+				return false
+			}
+			found := func(b *ssa.BasicBlock, i int) bool {
+				return anyEdgeFact(b, i, func(v ssa.Value, trueIdx int) bool {
+					// found here — or found in another table consulted on the way (globals)
+					ex, ok := v.(*ssa.Extract)
+					if !ok || ex.Index != 1 || i != trueIdx {
+						return false
+					}
+					lk, ok := ex.Tuple.(*ssa.Lookup)
+					return ok && lk.CommaOk
+				})
+			}
+			bad := ""
+			instrsOf(s.fn, func(in ssa.Instruction) {
+				if _, ok := in.(*ssa.Return); !ok || bad != "" {
+					return
+				}
+				if f, path := existsPathFromAvoiding(s.fn, s.lk, in, gen, found); f {
+					bad = w.posOf(in.Pos()) + " (path " + strings.Join(path, " → ") + ")"
+				}
+			})
+			if bad != "" {
+				failing[s.lk] = bad
+				reader[s.fn] = false
+				changed = true
+			}
+		}
+	}
+	for _, s := range sites {
+		construct := "a name not found in the context's own map is looked for in the enclosing contexts"
+		if bad, isBad := failing[s.lk]; isBad || !reader[s.fn] {
+			if bad == "" {
+				bad = "another lookup of the function"
+			}
+			r.bad("R11.8", ssaName(s.fn), construct, w.posOf(s.lk.Pos()), "after this lookup misses, the return at "+bad+" is reached without consulting the context's .parent (directly or through a reader that does): inside an included template, a loop body or a macro the variables of the enclosing template read as absent here although {{ name }} prints them")
+		} else {
+			r.ok("R11.8", ssaName(s.fn), construct, w.posOf(s.lk.Pos()), "every miss path loads .parent or calls a reader that does", true)
+		}
+	}
+	r.floor("by-name reads of a context's variable map", len(sites), 2)
 }
